@@ -616,7 +616,7 @@ def mk_err(v):
 
 
 class Obligation:
-    __slots__ = ("site", "kind", "loc", "macros", "visits", "failures", "config")
+    __slots__ = ("site", "kind", "loc", "macros", "visits", "failures", "config", "ordinal")
 
     def __init__(self, site, kind, loc, macros):
         self.site, self.kind, self.loc, self.macros = site, kind, loc, macros
@@ -1834,6 +1834,10 @@ class Interp:
             src = term[1]
             if src[0] == "list":
                 return len(src) - 2
+            if src[0] == "slice" and src[3][0] == "lin" and not src[3][1]:
+                return src[3][2]
+            if src[0] == "seq" and src[1] == ("empty",):
+                return 0
             if src[0] == "elems":
                 return None
         return None
